@@ -18,7 +18,7 @@ COMPONENT_PROPS = {
     "users": {"C02", "C06", "C19"}, "users/modes": {"C11", "C19", "C12", "C15"}, "users/away": {"C10", "C19", "C15"},
     "users/channels": {"C04", "C06", "C16", "C07"}, "users/invited": {"C09", "C07", "C15"},
     "users/user": {"C01", "C02"}, "users/host": {"C01"}, "users/realname": {"C02"},
-    "chans": {"C16", "C04"}, "chans/members": {"C04", "C08", "C01", "C09", "C15"}, "chans/topic": {"C09", "C16"},
+    "chans": {"C16", "C04", "C19"}, "chans/members": {"C04", "C08", "C01", "C09", "C15"}, "chans/topic": {"C09", "C16"},
     "chans/flags": {"C08", "C10", "C12", "C07", "C09", "C16"}, "chans/key": {"C08", "C07", "C16"},
     "chans/limit": {"C08", "C07", "C16"}, "chans/ban": {"C08", "C07", "C10", "C14", "C16"},
     "chans/exc": {"C08", "C07", "C10", "C14", "C16"}, "chans/invex": {"C08", "C07", "C14", "C16"},
@@ -730,7 +730,7 @@ class World:
                                                        n for n, u in self.model.users.items()
                                                        if self.model.owner.get(n) in self.clients)):
                 props = {"I1": {"C04"}, "I2": {"C08", "C04"}, "I3": {"C11", "C15", "C06"},
-                         "I4": {"C19"}, "I5": {"C16"}, "I6": {"C02", "C15"}, "I7": {"C02", "C06", "C05"},
+                         "I4": {"C19"}, "I5": {"C16", "C19"}, "I6": {"C02", "C15"}, "I7": {"C02", "C06", "C05"},
                          "I8": {"C19"}, "I9": {"C05"}}[inv_id]
                 # an invariant broken by this step concerns the invariant's home properties and the
                 # properties the command is about
